@@ -1097,6 +1097,11 @@ class Interp:
             return self._unknown_bool(st, ("cmp", opn, a.sym, b.sym))
         if isinstance(a, StrV) and isinstance(b, StrV):
             return self._unknown_bool(st, ("cmp", opn, a.sym, b.sym))
+        if isinstance(a, TupleV) and isinstance(b, TupleV):
+            if any(isinstance(x, NoneV) for x in a.items + b.items):
+                return [(st, self.raised("none-operand", "TypeError", node,
+                                         "ordering comparison of tuples with a None element"))]
+            return self._unknown_bool(st, ("cmp", opn, a.sym, b.sym))
         if isinstance(a, RefV) and isinstance(b, RefV):
             oa = st.heap[a.oid]
             mname = {"Lt": "__lt__", "Gt": "__gt__", "LtE": "__le__", "GtE": "__ge__"}[opn]
@@ -1106,6 +1111,10 @@ class Interp:
                                  "ordering between {} and {}".format(a.kind, b.kind)))]
 
     def _unknown_bool(self, st, sym):
+        # the same test already decided on this path keeps its outcome
+        for c, t in reversed(st.conds):
+            if c == sym:
+                return [(st, t)]
         s2 = st.fork()
         self.tick()
         st.conds.append((sym, True))
